@@ -281,7 +281,9 @@ func runC16(c *Ctx) {
 	consumedPeekRule(c, "consumed-peek", memNonVM, 60)
 	noLossAfterRetrieveRule(c, "no-loss-after-retrieve", memNonVM)
 	slotPinningRule(c, "slot-pinning")
+	routeByLineRule(c, "route-by-line")
 	invalidateSweepRule(c, "invalidate-sweep", []string{"mem/cache/writeback", "mem/cache/writethroughcache"}, 2)
+	spliceRule(c, "splice-in-loop", memNonVM)
 	idempotentStallRule(c, "idempotent-stall", func(pp string) bool {
 		return strings.HasPrefix(pp, ModPath+"/mem/") && !strings.HasPrefix(pp, ModPath+"/mem/cache") && !strings.HasPrefix(pp, ModPath+"/mem/vm")
 	}, 10)
@@ -613,6 +615,7 @@ func runC25(c *Ctx) {
 	noLossAfterRetrieveRule(c, "no-loss-after-retrieve", memVM)
 	staleGuardRule(c, "stale-response-guard")
 	invalidateSweepRule(c, "invalidate-sweep", []string{"mem/vm/tlb", "mem/vm/mmuCache"}, 3)
+	spliceRule(c, "splice-in-loop", memVM)
 	// the TLB depends on the pipeline never stranding an item
 	sub := newCtx(c.P, "C15", c.Tier)
 	runC15(sub)
@@ -745,4 +748,186 @@ func elementOfField(v ssa.Value, f *types.Var, depth int) bool {
 		return isFieldLoad(x.X)
 	}
 	return false
+}
+
+// spliceRule reports index-shift mistakes when several elements are removed from
+// a State slice inside one loop.
+func spliceRule(c *Ctx, rule string, pred func(string) bool) {
+	p := c.P
+	n, nbad := 0, 0
+	for _, fn := range p.SrcFuncs(pred) {
+		n++
+		for _, in := range spliceInLoopFindings(fn) {
+			nbad++
+			c.Fail(rule, SSAFuncKey(fn)+"@"+shortKey(VKey(in.(*ssa.Store).Addr)), in.Pos(),
+				"elements are cut out of a State slice one by one inside a loop that walks a list of indices in ascending order, using each index as recorded: after the first cut every later element has moved down by one, so the next cut removes a neighbour instead — a finished item stays (and is answered again) while an unfinished one is dropped and never answered")
+		}
+	}
+	if nbad == 0 {
+		c.Ok(rule, "<all functions>", 0, "no ascending multi-index splice ("+itoa(n)+" functions)")
+	}
+}
+
+// lineAligned reports whether v is a cache-line-granular address: an alignment
+// expression x/b*b (or x &^ (b-1)), or a load of a struct field that, throughout
+// the cache packages, is only ever assigned line-granular values.
+func lineAligned(p *Program, fn *ssa.Function, v ssa.Value, depth int, seen map[*types.Var]bool) bool {
+	if depth > 5 || v == nil {
+		return false
+	}
+	v = stripConv(v)
+	switch x := v.(type) {
+	case *ssa.BinOp:
+		if x.Op == token.MUL {
+			if q, ok := stripConv(x.X).(*ssa.BinOp); ok && q.Op == token.QUO && VKey(q.Y) == VKey(x.Y) {
+				return true
+			}
+		}
+		if x.Op == token.AND_NOT {
+			return true
+		}
+		if x.Op == token.AND {
+			for _, side := range []ssa.Value{x.X, x.Y} {
+				if m, ok := stripConv(side).(*ssa.BinOp); ok && m.Op == token.SHL {
+					if _, isC := stripConv(m.X).(*ssa.Const); isC {
+						return true // x & (ones << log2)
+					}
+				}
+			}
+		}
+		if x.Op == token.SHL {
+			if q, ok := stripConv(x.X).(*ssa.BinOp); ok && q.Op == token.SHR && VKey(q.Y) == VKey(x.Y) {
+				return true
+			}
+		}
+	case *ssa.Phi:
+		for _, e := range x.Edges {
+			if !lineAligned(p, fn, e, depth+1, seen) {
+				return false
+			}
+		}
+		return len(x.Edges) > 0
+	case *ssa.Const:
+		return x.Value != nil && x.Value.String() == "0"
+	case *ssa.Extract:
+		call, ok := x.Tuple.(*ssa.Call)
+		if !ok || call.Common().StaticCallee() == nil {
+			return false
+		}
+		callee := origin(call.Common().StaticCallee())
+		n := 0
+		for _, b := range callee.Blocks {
+			if ret, isRet := b.Instrs[len(b.Instrs)-1].(*ssa.Return); isRet && x.Index < len(ret.Results) {
+				n++
+				if !lineAligned(p, callee, ret.Results[x.Index], depth+1, seen) {
+					return false
+				}
+			}
+		}
+		return n > 0
+	case *ssa.Parameter:
+		// all static callers pass a line-granular value
+		callee := x.Parent()
+		idx := -1
+		for i, q := range callee.Params {
+			if q == x {
+				idx = i
+			}
+		}
+		n := 0
+		for _, caller := range p.ModCG().in[origin(callee)] {
+			for _, b := range caller.Blocks {
+				for _, in := range b.Instrs {
+					if call, ok := in.(ssa.CallInstruction); ok && call.Common().StaticCallee() != nil && origin(call.Common().StaticCallee()) == origin(callee) && idx < len(call.Common().Args) {
+						n++
+						if !lineAligned(p, caller, call.Common().Args[idx], depth+1, seen) {
+							return false
+						}
+					}
+				}
+			}
+		}
+		return n > 0
+	case *ssa.UnOp, *ssa.Field:
+		var fld *types.Var
+		if u, ok := x.(*ssa.UnOp); ok {
+			if u.Op != token.MUL {
+				return false
+			}
+			fld = FieldOf(u.X)
+			if fld == nil {
+				if al, isAl := u.X.(*ssa.Alloc); isAl { // local cell
+					okAll, n := true, 0
+					for _, ref := range *al.Referrers() {
+						if st, isSt := ref.(*ssa.Store); isSt && st.Addr == ssa.Value(al) {
+							n++
+							if !lineAligned(p, fn, st.Val, depth+1, seen) {
+								okAll = false
+							}
+						}
+					}
+					return okAll && n > 0
+				}
+				return false
+			}
+		} else if f, ok := x.(*ssa.Field); ok {
+			if s2, isS := f.X.Type().Underlying().(*types.Struct); isS {
+				fld = s2.Field(f.Field)
+			}
+		}
+		if fld == nil {
+			return false
+		}
+		if seen[fld] {
+			return true
+		}
+		seen[fld] = true
+		n := 0
+		for _, g := range p.SrcFuncs(func(pp string) bool { return strings.HasPrefix(pp, ModPath+"/mem/cache") }) {
+			for _, b := range g.Blocks {
+				for _, in := range b.Instrs {
+					st, ok := in.(*ssa.Store)
+					if !ok {
+						continue
+					}
+					fo := FieldOf(st.Addr)
+					if fo == nil || !sameObj(fo, fld) {
+						continue
+					}
+					n++
+					if !lineAligned(p, g, st.Val, depth+1, seen) {
+						return false
+					}
+				}
+			}
+		}
+		return n > 0
+	}
+	return false
+}
+
+// routeByLineRule: a cache sends everything that concerns one line — fills,
+// write-backs, forwarded writes — to the lower module chosen from the line's
+// address, so that they stay ordered and land where the fills read from.
+func routeByLineRule(c *Ctx, rule string) {
+	p := c.P
+	n := 0
+	for _, rel := range []string{"mem/cache/writeback", "mem/cache/writethroughcache"} {
+		for _, fn := range p.SrcFuncs(func(pp string) bool { return pp == pkgPath(rel) }) {
+			for _, b := range fn.Blocks {
+				for _, in := range b.Instrs {
+					call, ok := in.(*ssa.Call)
+					if !ok || call.Common().StaticCallee() == nil || call.Common().StaticCallee().Name() != "findPort" {
+						continue
+					}
+					n++
+					args := call.Common().Args
+					arg := args[len(args)-1]
+					c.Check(lineAligned(p, fn, arg, 0, map[*types.Var]bool{}), rule, SSAFuncKey(fn)+"@findPort", in.Pos(), "the lower module is chosen from a line-granular address",
+						"the lower-memory module of a request is chosen from "+VKey(arg)+", which is not a cache-line-granular address: with lower modules interleaved more finely than a line, a forwarded write lands in a different module than the one the line's fill reads from, so a later miss returns stale or zero bytes for an acknowledged write")
+				}
+			}
+		}
+	}
+	c.Check(n >= 4, rule, "instances", 0, "findPort call sites found ("+itoa(n)+")", "fewer than four findPort call sites found in the caches")
 }
